@@ -37,6 +37,11 @@ func c17Cred(r *Rng, attr string) *ACred {
 	c.Fields = append(c.Fields, CField{Name: "addr.city9", DT: "integer", JSON: RawNum("777"), Kind: "int", Canon: "777", Nested: true})
 	c.SerAttr = attr
 	c.SubjectTypeAs = "string"
+	if r.Chance(70) {
+		// revisions of one type: the same type name and IRI, served under another context URL with another attribute -
+		// what claim building and lookup do must follow the context of the credential at hand, not an earlier one
+		c.TypeName, c.TypeIRI = "SerRevCredential", "https://example.com/types#SerRev"
+	}
 	c.TopTypes = []string{"VerifiableCredential", c.TypeName}
 	return c
 }
